@@ -3,10 +3,12 @@
 # cleanup last); sessions gauge never under-counts and returns to 0.
 # Oracle: online per-id state machine + post-hoc fan-out/gauge checks in harness/c02_monitor.hpp,
 # fed by randomised histories on the real TCP and UDP engines (harness/c02_close.cpp).
-import json, os
+import json, os, threading
 import vf
 
 LEVEL = "exploration"
+# every (harness, flavor) the quick and thorough tiers use (pre-built by ./check setup)
+BUILDS = [("c02_close", "plain"), ("c02_close", "tsan"), ("c02_close", "asan")]
 
 # close origins that must have been exercised (observed through the reason handed to the close
 # callback) for a pass; "observed nothing" is exit 2, not 0
@@ -85,21 +87,24 @@ def _run_chunk(ctx, binary, seed, start, count, par, tag, timeout):
     if vf.flavor_of(binary) == "tsan":
         env["TSAN_OPTIONS"] = "suppressions=" + _tsan_supp(ctx)
     args = ["--seed", seed, "--from", start, "--count", count, "--par", par, "--tmp", tmpd, "--out", out]
-    if os.environ.get("VF_C02_DIRTY_RESTART") == "1":   # restart TCP transports although sessions were open at stop()
-        args += ["--dirty-restart", 1]
+    if os.environ.get("VF_C02_DIRTY_RESTART") == "0":   # restart TCP transports only from a clean stop (no session open at stop())
+        args += ["--dirty-restart", 0]
     rr = vf.run_harness(binary, args, timeout=timeout, out_file=out, env_extra=env)
     rr.c02 = dict(start=start, count=count, tag=tag)
     return rr
 
 
+_supp_lock = threading.Lock()
+
+
 def _tsan_supp(ctx):
     p = os.path.join(ctx.tmp, "c02-tsan.supp")
-    if not os.path.exists(p):
-        with open(p + ".tmp", "w") as fh:
-            # libssl/libcrypto are not instrumented: their internal atomics are invisible to TSan, so
-            # intercepted libc calls made from inside them look unsynchronised. Frames entirely outside iora only.
-            fh.write("called_from_lib:libcrypto.so\ncalled_from_lib:libssl.so\n")
-        os.replace(p + ".tmp", p)
+    with _supp_lock:
+        if not os.path.exists(p):
+            with open(p, "w") as fh:
+                # libssl/libcrypto are not instrumented: their internal atomics are invisible to TSan, so
+                # intercepted libc calls made from inside them look unsynchronised. Frames entirely outside iora only.
+                fh.write("called_from_lib:libcrypto.so\ncalled_from_lib:libssl.so\n")
     return p
 
 
@@ -116,7 +121,7 @@ def run(ctx, only=None):
     thorough = ctx.tier == "thorough"
     flavors = ["plain", "tsan"] + (["asan"] if thorough else [])
     bins = vf.build_many([("c02_close", f) for f in flavors])
-    n_hist = {"plain": 5000 if thorough else 300, "tsan": 1500 if thorough else 160, "asan": 2500}
+    n_hist = {"plain": 5000 if thorough else 300, "tsan": 1500 if thorough else 300, "asan": 2500}
     par = {"plain": 4, "tsan": 3, "asan": 3}
     timeout = 3000 if thorough else 900
     jobs = []
